@@ -1,5 +1,6 @@
 (** AST (parser.rs:13-45) and outcomes. *)
 From EE Require Export Chars Decimal Token.
+Open Scope N_scope.
 
 Inductive literal := LNum (d : dec) | LBool (b : bool) | LStr (s : str).
 
@@ -15,6 +16,21 @@ Inductive ast :=
 | AMap (kvs : list (ast * ast))
 | AStmt (es : list ast)
 | ANone.
+
+(* height of a tree: what Parser.height tracks while building (parser.rs `built`) *)
+Fixpoint ast_height (e : ast) : N :=
+  match e with
+  | ALit _ | ARef _ | ANone => 1
+  | AUnary _ x => 1 + ast_height x
+  | ABinary _ l r => 1 + N.max (ast_height l) (ast_height r)
+  | APostfix x _ => 1 + ast_height x
+  | ATernary c a b => 1 + N.max (N.max (ast_height c) (ast_height a)) (ast_height b)
+  | AFunc _ args => 1 + (fix mx (l : list ast) : N := match l with [] => 0 | x :: r => N.max (ast_height x) (mx r) end) args
+  | AList es => 1 + (fix mx (l : list ast) : N := match l with [] => 0 | x :: r => N.max (ast_height x) (mx r) end) es
+  | AStmt es => 1 + (fix mx (l : list ast) : N := match l with [] => 0 | x :: r => N.max (ast_height x) (mx r) end) es
+  | AMap kvs => 1 + (fix mx (l : list (ast * ast)) : N :=
+                       match l with [] => 0 | (k, v) :: r => N.max (N.max (ast_height k) (ast_height v)) (mx r) end) kvs
+  end.
 
 (* Ok / Err as in Rust's Result; Panic = the Rust code unwinds; Fuel = the model's explicit fuel ran out *)
 Inductive outcome (A : Type) := Ok (a : A) | Err | Panic | Fuel.
